@@ -22,12 +22,12 @@
    harness converts with an independent reference converter; the file system
    (secret directories and dotenv files arrive as their parsed contents, one
    association list per directory / file, in the order given); generated-code
-   splicing of names (F21).  Strings are ASCII for clean/upper/lower.
+   splicing of names (F21, repaired by daee07e).  Strings are ASCII for clean/upper/lower.
 
-   Faithful to the current tree, including the open defect F22: with a non-empty
+   Faithful to the current tree, including the open defect F37: with a non-empty
    prefix, a field mapped to SEVERAL candidate variables looks up the single
-   name  prefix ++ repr(tuple)  (wizard.py:290 splices the tuple into an
-   f-string).  `tuple_repr` is exact for names without quote, backslash or
+   name  prefix ++ repr(tuple)  (wizard.py:290 formats the whole tuple with
+   "%s%s" % (_env_prefix, names)).  `tuple_repr` is exact for names without quote, backslash or
    non-printable characters.
    No proofs in this file. *)
 From DW Require Export PyStr StrConv T_LetterCase.
@@ -100,32 +100,33 @@ Definition load_environ_force (st : state) : state :=
 
 Definition not_in (l : list pstr) (v : pstr) : bool := negb (mem_str v l).
 
-(* Env.reload() with env=None, lookups.py:62-79.  `env_vars` is the set object
-   held BEFORE load_environ(force_reload=True); on the very first use it is the
-   freshly cached empty set and stays Env.var_names, afterwards load_environ
-   has already rebound Env.var_names to a new set and the update of the old
-   object is lost (harmless).  new_vars is computed against the OLD names. *)
+(* Env.reload() with env=None, lookups.py:62-81.  With the F34 repair it first calls
+   load_environ(), so `environ` is set before var_names is computed and cached.
+   `env_vars` is the set object held BEFORE load_environ(force_reload=True); that
+   call rebinds Env.var_names to a new set, so the update of the old object is lost
+   (harmless).  new_vars is computed against the OLD names. *)
 Definition env_reload (st : state) : state :=
-  let old := match environ st with None => [] | Some _ => var_names st end in
-  let st1 := load_environ_force st in
+  let st0 := load_environ st in
+  let old := var_names st0 in
+  let st1 := load_environ_force st0 in
   let e := os_env st in
   let new_vars := filter (not_in old) (dom e) in
-  let vn := match environ st with None => old ++ new_vars | Some _ => var_names st1 end in
-  mkState e (Some e) vn
+  mkState e (Some e) (var_names st1)
     (match cleaned st1 with
      | Some c => Some (env_update c (cpairs new_vars))
      | None => None
      end).
 
 (* Env.reload(env) followed by environ.update(env)
-   (update_with_secret_values / update_with_dotenv, lookups.py:106-148). *)
+   (update_with_secret_values / update_with_dotenv, lookups.py:108-150). *)
 Definition update_with (st : state) (u : env) : state :=
-  match environ st with
-  | None => st                       (* unreachable: __init__ loads environ first *)
+  let st0 := load_environ st in
+  match environ st0 with
+  | None => st0                      (* unreachable: load_environ sets environ *)
   | Some e =>
-      let new_vars := filter (not_in (var_names st)) (dom u) in
-      mkState (os_env st) (Some (env_update e u)) (var_names st ++ new_vars)
-        (match cleaned st with
+      let new_vars := filter (not_in (var_names st0)) (dom u) in
+      mkState (os_env st0) (Some (env_update e u)) (var_names st0 ++ new_vars)
+        (match cleaned st0 with
          | Some c => Some (env_update c (cpairs new_vars))
          | None => None
          end)
@@ -286,7 +287,7 @@ Definition field_lookup (st : state) (p : prio) (prefix : pstr) (f : field) : st
   | ExTuple vs =>
       if is_nil vs then get_env p st (prefix ++ f_name f)
       else if is_nil prefix then (st, lookup_exact_seq st vs)
-      else (st, lookup_exact_str st (prefix ++ tuple_repr vs))          (* F22 *)
+      else (st, lookup_exact_str st (prefix ++ tuple_repr vs))          (* F37 *)
   | ExNone => get_env p st (prefix ++ f_name f)
   end.
 
